@@ -173,7 +173,9 @@ func (m *Metadata) UnmarshalBinary(data []byte) error {
 			return err
 		}
 		m.protocols = append(m.protocols, t)
-		read += tLen
+		// data was already advanced past the previous protocols, so the next
+		// protocol starts tLen bytes into the current slice.
+		read = tLen
 	}
 	return m.Validate()
 }
